@@ -156,6 +156,39 @@ theorem C02_external_requests_accounted {cfg : Config S} (hdt : 0 ≤ cfg.dt) {P
   ⟨C02_exec_exactly_once hdt (h.ext n p), C02_no_duplicates hdt (h.ext n p),
     (ext_runProg cfg n p w).exec_eq, (ext_runProg cfg n p w).now_eq⟩
 
+/-- A step out of which the executed event's callback lets an exception escape (`Sim.stepRaised`: the event
+    is consumed and its callback ran as far as it got, the hooks and the completion check are skipped, the
+    caller catches the exception and keeps driving): the accounting survives it - executed ++ queued is still
+    a duplicate-free, ordered permutation of the accepted requests, nothing queued is in the past, and the
+    clock did not go back. Whatever the driver does afterwards starts from a sound world. -/
+theorem C02_raised_step_accounted {cfg : Config S} (hdt : 0 ≤ cfg.dt) (P : NodeId → Proto S σ)
+    {w : World S σ} (hw : WInv w) :
+    WInv (stepRaised cfg P w) ∧ w.loop.now ≤ (stepRaised cfg P w).loop.now := by
+  unfold stepRaised
+  split
+  · exact ⟨hw, Int.le_refl _⟩
+  · have hi : WInv (if w.initialized then w else initialise cfg P w) ∧
+        (if w.initialized then w else initialise cfg P w).loop.now = w.loop.now := by
+      split
+      · exact ⟨hw, rfl⟩
+      · exact ⟨(initialise_inv cfg P w hw).1, (initialise_inv cfg P w hw).2.1⟩
+    generalize (if w.initialized then w else initialise cfg P w) = w1 at hi
+    obtain ⟨hw1, hn1⟩ := hi
+    simp only
+    split
+    · have := finalise_inv cfg P w1 hw1
+      exact ⟨this.1, by rw [this.2.1, hn1]; exact Int.le_refl _⟩
+    · split
+      · exact ⟨hw1, by rw [hn1]; exact Int.le_refl _⟩
+      · rename_i e rest hq
+        have hp : WInv (popped e rest w1) := popped_inv hw1 hq
+        have hle : w1.loop.now ≤ e.ts := hw1.ge_now e (by rw [hq]; exact List.mem_cons_self)
+        have ex := ext_execEv cfg hdt P e (popped e rest w1)
+        refine ⟨ex.inv hp, ?_⟩
+        show w.loop.now ≤ (execEv cfg P e (popped e rest w1)).loop.now
+        rw [ex.now_eq, ← hn1]
+        exact hle
+
 /-- non-vacuity of the above: steps and external programs interleave freely -/
 example (cfg : Config S) (P : NodeId → Proto S σ) (n : NodeId) (p q : Prog S σ) :
     Reachable cfg P (step cfg P (runProg cfg n q (step cfg P (runProg cfg n p (init cfg P)).1).1).1).1 :=
